@@ -29,6 +29,9 @@ rsync -a --delete --exclude '.git' --exclude 'harness/target*' --exclude 'replay
 mkdir -p "$BASE/verif/evidence"
 sed -i "s#\"/repo/#\"$BASE/repo/#g" "$BASE"/verif/harness/*/Cargo.toml
 sed -i "s#/verif/harness/target/c19_tmp#$BASE/verif/harness/target/c19_tmp#; s#\"/verif/replays\"#\"$BASE/verif/replays\"#" "$BASE/verif/harness/store/src/lib.rs" "$BASE/verif/harness/vcore/src/lib.rs"
+# panic locations are part of violation signatures: point the known findings at this copy's source paths
+# (slot names must not contain digits: signatures have their numbers stripped)
+sed -i "s#@ /repo/#@ $BASE/repo/#g" "$BASE/verif/known_findings.json"
 cd "$BASE/verif"
 ./check "$PROP" --tier "$TIER" "$@" 2>&1 | grep -v "^KNOWN-FINDING" | cut -c1-420 | head -14
 RC=${PIPESTATUS[0]}
